@@ -20,6 +20,12 @@ def classify(rep, case, outcome, kind, cfgname, consts):
             continue
     return None
 
+def classify_simple(rep, kind, cp):
+    """findings identified by (failure kind, code point) rather than by a predicate on a driver case"""
+    for k in rep.known:
+        if 'code_points' in k and kind in k.get('kinds', []) and cp in [int(x, 16) for x in k['code_points']]: return k['id']
+    return None
+
 def _only_changed(case, o, blk, lo, hi):
     """the outcome differs from the initial blocks only inside [lo,hi) of block blk"""
     for bi, (mode, before) in enumerate(case.blocks):
@@ -167,3 +173,14 @@ def kf_wcsrtombs_noslack_unterminated(case, o, kind, cfg, consts):
     if consts['null_slack'] or m.get('op') != 'wcsrtombs' or kind != 'wrong-conversion' or o.ret != '0': return False
     nb = len(''.join(chr(c) for c in m['chars']).encode('utf-8'))
     return m['len'] <= nb      # libc was stopped by len before it could store the terminator
+
+@pred
+def kf_norm_037e(case, o, kind, cfg, consts):
+    # U+037E is left alone (table slot 0 = "no mapping"); everything else in the string is normalised as it should
+    import unicodedata as ud
+    m = case.meta
+    if kind != 'norm-wrong' or 0x37e not in m.get('s', []) or 0xe000 in m['s']: return False
+    want = [ord(x) for x in ud.normalize('NFC' if m['mode'] == 1 else 'NFD', ''.join(chr(0xe000 if c == 0x37e else c) for c in m['s']))]
+    want = [0x37e if c == 0xe000 else c for c in want]
+    d = [int.from_bytes(o.blocks[1][i:i + 4], 'little') for i in range(0, len(o.blocks[1]) - 3, 4)]
+    return 0 in d and d[:d.index(0)] == want
